@@ -996,6 +996,11 @@ func (*Context).evaluate
     invariant len(e.stack) == 1000 && &e.stack[0] == &stack[0] && 0 <= e.top && e.top <= 1000
     invariant forall j in [0, e.top): wfValue(&stack[j])
     invariant lastPop == nil || wfValue(lastPop)
+    invariant [C13] outStr == gcat
+  ghost var gcat string = ""
+  ghost at loop 3 begin: gcat = ""
+  ghost at call 1 val.ToString: gcat = gcat + ret
+  ghost at loop 3 end: if code.T == typeLoadFormatString && ctx.Error == nil { ghostAssert(stack[e.top-1].Value.(string) == gcat) }
   ghost var gtop int = 0
   ghost var gblk int = 0
   ghost var gfblk int = 0
